@@ -551,8 +551,9 @@ fn run_case(steps: &str) -> (String, String, String, Vec<String>) {
                     }
                     Err(e) => {
                         flags.push(format!("NOTE-super-tick-error:{}", format!("{e:?}").chars().take(60).collect::<String>()));
+                        // a faulted pass commits nothing (C09's subject): for this property it is an empty pass
                         ins.push("T:-".into());
-                        obs.push("T:err".into());
+                        obs.push("T:-".into());
                     }
                 }
             }
